@@ -390,6 +390,7 @@ func (w *World) rulesAutomaton(p *Pkg, m *parseModel, add func(ok bool, rule, in
 	// rejections by kind: in a state with metrics left, in the state where
 	// every metric has been consumed, and at the end of the input
 	midErrs, fullErrs, shortErrs := map[string]int{}, map[string]int{}, map[string]int{}
+	var under []string
 	for len(queue) > 0 && len(problems) < 5 {
 		cur := queue[0]
 		queue = queue[1:]
@@ -409,6 +410,9 @@ func (w *World) rulesAutomaton(p *Pkg, m *parseModel, add func(ok bool, rule, in
 			if !acc && !oracleAccept(cur.oracle) {
 				shortErrs[errName]++
 			}
+			if !acc && oracleAccept(cur.oracle) {
+				under = append(under, fmt.Sprintf("after %s the input may end, the parser answers %s", cur.trace, errName))
+			}
 			if acc != oracleAccept(cur.oracle) {
 				problems = append(problems, fmt.Sprintf("after %s the parser %s, the specification %s", cur.trace, map[bool]string{true: "accepts", false: "rejects (" + errName + ")"}[acc], map[bool]string{true: "accepts", false: "rejects (incomplete group / missing base metric)"}[oracleAccept(cur.oracle)]))
 			}
@@ -425,8 +429,12 @@ func (w *World) rulesAutomaton(p *Pkg, m *parseModel, add func(ok bool, rule, in
 			switch out.kind {
 			case "panic":
 				problems = append(problems, fmt.Sprintf("after %s the element %s makes the parser panic: %s", orEmpty(cur.trace), abv, out.msg))
+				if ook {
+					under = append(under, fmt.Sprintf("%s panics", tr))
+				}
 			case "error":
 				if ook {
+					under = append(under, fmt.Sprintf("%s is rejected with %s", tr, out.err))
 					problems = append(problems, fmt.Sprintf("the well-ordered prefix %s is rejected with %s", tr, out.err))
 				} else {
 					orderErrs[out.err]++
@@ -444,6 +452,9 @@ func (w *World) rulesAutomaton(p *Pkg, m *parseModel, add func(ok bool, rule, in
 				}
 			default:
 				problems = append(problems, fmt.Sprintf("after %s the element %s ends the loop or returns success early", orEmpty(cur.trace), abv))
+				if ook {
+					under = append(under, fmt.Sprintf("after %s the rest of the input is not examined", tr))
+				}
 			}
 		}
 	}
@@ -457,6 +468,11 @@ func (w *World) rulesAutomaton(p *Pkg, m *parseModel, add func(ok bool, rule, in
 	} else {
 		add(false, "R01.automaton", "ParseVector.cursor", m.loop, "the parser's cursor logic differs from the specification's order rule: "+strings.Join(problems, "; "))
 	}
+	m.autoDecided = true
+	if len(under) > 3 {
+		under = under[:3]
+	}
+	m.autoUnder = under
 	if len(problems) == 0 {
 		m.autoOK = true
 		kinds := func(mm map[string]int) string {
